@@ -185,6 +185,13 @@ impl Report {
     }
   }
 
+  /// `n` occurrences of a finding whose key is listed in the known-findings file (one sample kept).
+  pub fn known_hits_n(&mut self, v: Violation, n: usize) {
+    if self.kf.matches(&v.key).is_none() { self.violation(v); return; }
+    let e = self.known_hits.entry(v.key.clone()).or_insert((v.what.clone(), 0, v.replay.clone()));
+    e.1 += n as u64;
+  }
+
   pub fn violation_count(&self) -> usize { self.violations.len() }
 
   /// Writes evidence, prints KNOWN-FINDING / VIOLATION lines, and returns the exit code.
